@@ -52,17 +52,20 @@ TPhase == /\ IsEvent("c.phase")
 
 TStep == /\ IsEvent("c.step")
          \* an environment that stalls resumes only after the stop has run its course; the driver gives up
-         \* waiting for that 60 s after the drain time, so seeing the step first means the timeout was not honoured
+         \* waiting for that 20 s after the drain time (300 ms), so seeing the step first means the timeout was not honoured
          /\ Expect(mode # "hang" \/ exited, "stop-exceeds-drain-timeout")
          /\ stepped' = stepped \cup {Ev.c}
          /\ Keep(<<vars, srvOpen, dWaited, dMax, dRemain, dSeen>>)
 
 \* the drain loop used up its time (then the process may exit with work outstanding)
 DrainTimeUsed == dSeen /\ dWaited >= dMax
+\* process-level runs have no hooks: the time from the signal to the observed exit stands in for the time waited
+ExitAfterDrainTime == Has(Ev, "drain_ms") /\ Ev.elapsed_ms >= Ev.drain_ms
 
 TDone == /\ IsEvent("c.done")
          \* no request in flight when the signal arrived fails (nothing kills connections in process, so any failure counts)
-         /\ Expect(Ev.ok \/ ~conn[Ev.c].pre, "in-flight-request-failed")
+         \* (a request already reported as left behind by the exit is not reported a second time)
+         /\ Expect(Ev.ok \/ ~conn[Ev.c].pre \/ <<Ev.c, conn[Ev.c].done + 1>> \in lost, "in-flight-request-failed")
          /\ conn' = [conn EXCEPT ![Ev.c].ph = "idle", ![Ev.c].done = @ + 1]
          /\ Keep(<<sig, mode, fresh, lst, draining, drained, timedout, ticks, exited, lost, stepped, srvOpen, dWaited, dMax, dRemain, dSeen>>)
 
@@ -102,8 +105,8 @@ OwedForSure == {c \in Conns : Busy(c) /\ conn[c].pre /\ c \notin stepped}
 TExit == /\ IsEvent("exit")
          /\ Expect(Ev.err = "", "shutdown-returned-error")
          \* ExitDrainedOrTimeout / NoLoss of Shutdown.tla on the real execution
-         /\ Expect(OwedForSure = {} \/ DrainTimeUsed, "exit-before-drained")
-         /\ Expect(lst = "closed", "exit-with-listener-open")
+         /\ Expect(OwedForSure = {} \/ DrainTimeUsed \/ ExitAfterDrainTime, "exit-before-drained")
+         /\ Expect(lst = "closed" \/ ~draining, "exit-with-listener-open")
          /\ exited' = TRUE
          /\ lost' = {<<c, conn[c].done + 1>> : c \in OwedForSure}
          /\ Keep(<<sig, mode, fresh, lst, draining, drained, timedout, ticks, conn, stepped, srvOpen, dWaited, dMax, dRemain, dSeen>>)
